@@ -60,7 +60,7 @@ C[PA + 'slice'] = dict(
     params=dict(self='Annotation', start='int', stop='int', inplace='bool'), returns='Annotation', pure=True, trusted=True,
     bounded_by='proved against its own contract in contracts/annot.py (C11): residues, residue / terminal modifications, intervals of the range', ensures=[])
 C[PA + 'serialize'] = dict(params=dict(self='Annotation', include_plus='bool'), returns='str', pure=True, trusted=True,
-                           bounded_by='single-chain serializer: round trip checked by bounded/C01.py', ensures=[])
+                           bounded_by='single-chain serializer: layout proved in contracts/serial.py (C01); parser-inverts-writer round trip bounded/C01.py', ensures=[])
 C['peptacular.proforma.proforma_parser:create_annotation'] = dict(
     params=dict(sequence='str'), returns='Annotation', pure=True, trusted=True, bounded_by='annotation of an unmodified residue string: bounded/C20.py',
     ensures=[])
